@@ -38,7 +38,7 @@ def execute(inst):
     for t in inst["terms"]:
         c = apply_sets(pt, t["sets"])
         c.update(extra)
-        name = f"{c['kind']}_{c['flav']}"
+        name = f"{c.get('xs_kind') or c['kind']}_{c['flav']}"
         base = dict(c)
         base.pop("flav")
         gk = repr(sorted(base.items(), key=lambda kv: kv[0]))
